@@ -4,6 +4,8 @@ package main
 
 import (
 	"bytes"
+	"os"
+	"path/filepath"
 	"encoding/json"
 	"fmt"
 	"io"
@@ -46,14 +48,17 @@ func TestC09HTTP(t *testing.T) {
 		"in order":             {{0, 10}, {10, 20}, {20, 30}},
 		"last part first":      {{20, 30}, {0, 10}, {10, 20}},
 		"two files (f, then g)": {{0, 10}, {10, 20}, {0, 10}},
+		// the file changed between two parts of one request: parts 1 and 2 announce another hash
+		"hash changes after part 0": {{0, 10}, {10, 20}, {20, 30}},
 	}
+	content2 := "9876543210JIHGFEDCBAjihgfedcba" // the other version (same size)
 	var rc struct {
 		Layout string `json:"layout"`
 		Cut    int    `json:"cut"`
 	}
 	replay := vh.ReplaySpec(&rc)
 	n := 0
-	for _, lname := range []string{"in order", "last part first", "two files (f, then g)"} {
+	for _, lname := range []string{"in order", "last part first", "two files (f, then g)", "hash changes after part 0"} {
 		parts := layouts[lname]
 		for cut := 0; cut <= 30; cut++ {
 			n++
@@ -74,8 +79,12 @@ func TestC09HTTP(t *testing.T) {
 					if lname == "two files (f, then g)" && i == 2 {
 						name = "g"
 					}
-					meta = append(meta, map[string]interface{}{"n": name, "r": "", "p": "", "f": vh.MD5([]byte(content)), "t": "1293753600+5", "s": len(content), "b": p.b, "e": p.e})
-					body += content[p.b:p.e]
+					src := content
+					if lname == "hash changes after part 0" && i > 0 {
+						src = content2
+					}
+					meta = append(meta, map[string]interface{}{"n": name, "r": "", "p": "", "f": vh.MD5([]byte(src)), "t": "1293753600+5", "s": len(src), "b": p.b, "e": p.e})
+					body += src[p.b:p.e]
 				}
 				mb, _ := json.Marshal(meta)
 				hdrs := map[string]string{"X-STS-SrcName": "src", "X-STS-MetaLen": fmt.Sprint(len(mb)), "X-STS-Sep": "/"}
@@ -106,6 +115,35 @@ func TestC09HTTP(t *testing.T) {
 						}
 					}
 					return false
+				}
+				if lname == "hash changes after part 0" {
+					// a range listed under a hash must have been sent under that hash, and a record that
+					// mixes the two versions must not count as complete
+					h1, h2 := vh.MD5([]byte(content)), vh.MD5([]byte(content2))
+					for _, p := range listed {
+						if p.Name != "f" {
+							continue
+						}
+						for _, x := range p.Parts {
+							sentAs := h2
+							if x.Beg < 10 {
+								sentAs = h1
+							}
+							if p.Hash != sentAs || (x.Beg < 10 && x.End > 10) {
+								bad = fmt.Sprintf("layout %q, body cut after %d of 30 bytes: the receiver lists bytes %d:%d of f under hash %s, but they were sent as part of the version with hash %s; listing: %s", lname, cut, x.Beg, x.End, p.Hash, sentAs, listing)
+								return
+							}
+						}
+					}
+					if cut == 30 {
+						for _, ext := range []string{".full", ".wait"} {
+							if _, err := os.Stat(filepath.Join(r.dirs.Stage, "src", "f"+ext)); err == nil {
+								bad = fmt.Sprintf("layout %q: part 0 of one version and parts 1-2 of another were received, and the receiver treats f as complete (f%s exists); listing: %s", lname, ext, listing)
+								return
+							}
+						}
+					}
+					return
 				}
 				for i := 0; i < claimed && i < len(parts); i++ {
 					name := "f"
@@ -143,5 +181,5 @@ func TestC09HTTP(t *testing.T) {
 			}
 		}
 	}
-	rep.Bound = "a data request of three 10-byte parts (one file in order; last part first; parts of two files) whose body ends after c bytes, for every c in 0..30, sent to the real receiver over the in-memory network; the 200 / 206 answer's part count and the count answered by the following data-recovery request are compared with what arrived and with the partial listing"
+	rep.Bound = "a data request of three 10-byte parts (one file in order; last part first; parts of two files; the file's hash changing after the first part) whose body ends after c bytes, for every c in 0..30, sent to the real receiver over the in-memory network; the 200 / 206 answer's part count and the count answered by the following data-recovery request are compared with what arrived and with the partial listing"
 }
